@@ -1,6 +1,7 @@
 package c14
 
 import (
+	"strings"
 	"bytes"
 	"encoding/asn1"
 	"encoding/pem"
@@ -146,6 +147,31 @@ func runCapacity(c *engine.Ctx, ks []*key) {
 					if err != nil || !bytes.Equal(back, pt0) {
 						t.Fail(key+"/roundtrip", "plaintext of %d bytes (padding %d) does not come back: %v", L, pad, err)
 						continue
+					}
+				}
+				// record layout plaintext||password in one array, the plaintext's capacity reaching over the password (which
+				// the caller needs again to decode): both arguments must be what the caller wrote after the call
+				{
+					rec := make([]byte, L+len(pw0)+48)
+					dirty(rec, 0x5d)
+					copy(rec, pt0)
+					copy(rec[L:], pw0)
+					ptR, pwR := rec[:L:len(rec)], rec[L:L+len(pw0):len(rec)]
+					var out []byte
+					t.Eval(1)
+					if !t.Guard(key, func() { out, err = op.enc(ptR, pwR) }) {
+						detail := fmt.Sprintf("plaintext %d bytes, padding %d, record layout plaintext||password", L, pad)
+						switch {
+						case err != nil:
+							t.Fail(key+"/encode-error", "%s: %v", detail, err)
+						case !bytes.Equal(pwR, pw0):
+							t.Fail("capacity/password-behind-plaintext-modified/"+strings.SplitN(op.name, "/", 2)[0], "%s (%s): the password argument was modified by the call: %x -> %x", detail, op.name, pw0, pwR)
+						case !bytes.Equal(ptR, pt0):
+							t.Fail(key+"/plaintext-modified", "%s: the plaintext changed", detail)
+						case !bytes.Equal(out, base):
+							t.Fail(key+"/depends-on-capacity/record", "%s: the result differs from the one for exactly-sized buffers at byte %d of %d", detail, engine.FirstDiff(out, base), len(base))
+						}
+						t.Nontrivial(key + fmt.Sprintf("/record/pad=%d", pad))
 					}
 				}
 				seen := map[int]bool{}
